@@ -116,6 +116,7 @@ var errFn = errors.New("verif: fn error")
 // returns an error does not stop the transaction.
 func (h *DBH) RunTx(st Step, writable bool, pre func(i int, op *Op)) (tr TxResult) {
 	defer func() { h.lastTxMs = time.Now().UnixMilli() }()
+	resetArgArena()
 	end := st.End
 	if end == "" {
 		end = "commit"
@@ -234,12 +235,33 @@ func (h *DBH) lockReleased() bool {
 
 func bs(s S) []byte { return []byte(s) }
 
+// argArena makes the calls of one transaction share their argument slices the way caller code does
+// (`key := []byte("mylist")` used for several calls): within a transaction equal byte strings are passed as
+// the SAME slice, which has spare capacity (as []byte(string) usually has). The contents never change, so
+// this is transparent unless the library writes into a caller's slice or keeps it and appends to it.
+var argArena = map[string][]byte{}
+
+func resetArgArena() {
+	for k := range argArena {
+		delete(argArena, k)
+	}
+}
+
 // kb converts an argument; with op.Nil an empty argument is passed as a nil slice.
 func kb(op Op, s S) []byte {
 	if op.Nil && len(s) == 0 {
 		return nil
 	}
-	return []byte(s)
+	if len(s) > 4096 {
+		return []byte(s)
+	}
+	if b, ok := argArena[string(s)]; ok && string(b) == string(s) {
+		return b
+	}
+	b := make([]byte, len(s), len(s)+24)
+	copy(b, s)
+	argArena[string(s)] = b
+	return b
 }
 
 func kbs(op Op) [][]byte {
